@@ -169,16 +169,21 @@ def rewrite_imports(source_code: str, mapping: MappingType) -> Union[str, None]:
                 names_str = ', '.join(unmapped_names)
                 replacement_lines.append(f'from {module} import {names_str}\n')
 
-            # Get line numbers
-            start_line = node.lineno - 1  # Convert to 0-based index
-            end_line = getattr(node, 'end_lineno', node.lineno) - 1
-            replacements.append((start_line, end_line, replacement_lines))
+            replacements.append((node, replacement_lines))
 
     if len(replacements) == 0:
         return None
 
     # Apply replacements in reverse order to maintain line indices
-    for start_line, end_line, replacement_lines in reversed(replacements):
+    for node, replacement_lines in reversed(replacements):
+        start_line = node.lineno - 1  # Convert to 0-based index
+        end_line = getattr(node, 'end_lineno', node.lineno) - 1
+        # Other statements may share the physical line(s) with the import
+        # (col offsets are in UTF-8 bytes)
+        head = lines[start_line].encode()[:node.col_offset].decode()
+        tail = lines[end_line].encode()[node.end_col_offset:].decode()
+        if head.strip() or tail.lstrip().startswith(';'):
+            replacement_lines = [head + ''.join(replacement_lines).rstrip('\n') + tail]
         lines[start_line:end_line+1] = replacement_lines
 
     return ''.join(lines)
